@@ -470,6 +470,14 @@ impl Plane {
   pub fn recognize_rule_numbers_placement(&self) -> Result<RuleNumbersPlacement> {
     match self.recognize_horizontal_rule_numbers() {
       Ok(RuleNumbersPlacement::NotPresent) => self.recognize_vertical_rule_numbers(),
+      Err(reason) => {
+        // in vertical decision tables the first column below the double line contains
+        // the output names, which may look like invalid rule numbers
+        match self.recognize_vertical_rule_numbers() {
+          Ok(RuleNumbersPlacement::RightAfter(count)) => Ok(RuleNumbersPlacement::RightAfter(count)),
+          _ => Err(reason),
+        }
+      }
       other => other,
     }
   }
